@@ -161,7 +161,7 @@ WRAPPER = {
 }
 
 RRN = {
-    "props": ["C01", "C06", "C10", "C18", "C08"],
+    "props": ["C01", "C06", "C10", "C18", "C08", "C07"],
     "header_rewrites": [("R32", r"\basync fn\b", "fn")],
     "rewrites": [("R30", r"\s*\.instrument\(tracing::\w+!\((?:[^()]|\([^()]*\))*\)\)", ""), ("R32", r"\s*\.await\b", ""),
                  ("R39", r"\.and_then\(\|res\| validate_nameserver_response\(question, &res, match_count\)\)",
@@ -189,7 +189,11 @@ RRN = {
         question.qtype != QueryType::Wildcard && r is Ok ==> chain_ok(resolved_rrs(r->Ok_0), question.name), // [C10:recursive_chain_in_order_from_the_question_name]
         r is Ok ==> typed_ok(resolved_rrs(r->Ok_0), question.qtype), // [C10:recursive_answer_holds_only_aliases_and_records_of_the_asked_type]
     decreases ctx_limit(old(context)) - old(context).question_stack@.len(), 0int,""",
-    "entry": L.BU + " broadcast use group_chain, lemma_chain_concat_b, lemma_merged_nil_b, lemma_nil_concat_b, axiom_rr_vec_len, axiom_dn_vec_len, axiom_names_wf, group_local_first, lemma_alias_concat_b;",
+    "entry": L.BU + " broadcast use group_chain, lemma_chain_concat_b, lemma_merged_nil_b, lemma_nil_concat_b, axiom_rr_vec_len, axiom_dn_vec_len, axiom_names_wf, group_local_first, lemma_alias_concat_b; let ghost mut tried__: Set<DomainName> = Set::empty();",
+    "anchors": [{"after_re": r"if let Some\(ip\) =\s*resolve_hostname_to_ip\(", "at": "before", "proof": """proof {
+    assert(resolve_candidates_locally || tried__.contains(candidate)); // [C07:a_nameserver_address_is_sought_recursively_only_after_its_local_look_up_failed]
+    if resolve_candidates_locally { tried__ = tried__.insert(candidate); }
+}"""}],
     "loops": {"0": {"kw": "while", "spec": """        invariant
             context.question_stack@ == old(context).question_stack@.push(*question), same_env(old(context), &*context),
             old(context).question_stack@.len() < ctx_limit(old(context)), !old(context).question_stack@.contains(*question),
@@ -204,6 +208,9 @@ RRN = {
             zr(old(context), *question) is Some && zr(old(context), *question)->Some_0.1 is Answer && zone_soa_rr(zr(old(context), *question)->Some_0.0) is None
                 ==> local_first(zr(old(context), *question)->Some_0.1->rrs@, combined_rrs@), // [C01:local_records_kept_across_referrals]
             match_count <= question.name.labels@.len(), // [C06:referral_depth_never_exceeds_the_question_name]
+            // C07: nameserver addresses are sought from local data first; the recursive phase only holds candidates whose local look-up failed
+            !resolve_candidates_locally ==> forall|i: int| 0 <= i < candidate_hostnames@.len() ==> tried__.contains(#[trigger] candidate_hostnames@[i]),
+            forall|i: int| 0 <= i < next_candidate_hostnames@.len() ==> tried__.contains(#[trigger] next_candidate_hostnames@[i]),
         decreases question.name.labels@.len() - match_count, phase(resolve_candidates_locally), candidate_hostnames@.len(), // [C06,C07,C08:each_referral_followed_is_strictly_closer_to_the_question_name]
 """, "entry": L.BU + " broadcast use group_chain, lemma_chain_concat_b, lemma_merged_nil_b, lemma_nil_concat_b, axiom_rr_vec_len, axiom_dn_vec_len;"}},
 }
@@ -288,6 +295,8 @@ pub struct ExSocketAddr(std::net::SocketAddr);""")
 
 
 CANARIES = [
+    {"name": "slow_candidates_tried_first", "file": REC, "old": "        let mut resolve_candidates_locally = true;\n", "new": "        let mut resolve_candidates_locally = false;\n"},
+    {"name": "new_referral_skips_the_local_phase", "file": REC, "old": "                                Vec::with_capacity(candidate_hostnames.len());\n                            resolve_candidates_locally = true;", "new": "                                Vec::with_capacity(candidate_hostnames.len());"},
     {"name": "resolution_budget_ten_minutes", "file": REC, "old": "        Duration::from_mins(1),\n        resolve_recursive_notimeout(context, question),", "new": "        Duration::from_mins(10),\n        resolve_recursive_notimeout(context, question),"},
     {"name": "resolution_without_a_budget", "file": REC, "old": "    if let Ok(res) = timeout(\n        Duration::from_mins(1),\n        resolve_recursive_notimeout(context, question),\n    )\n    .await\n    {\n        res\n    } else {", "new": "    if let Ok(res) = Ok::<_, ()>(resolve_recursive_notimeout(context, question).await) {\n        res\n    } else {"},
     {"name": "empty_candidate_set_returned", "file": REC, "old": "            if !hostnames.is_empty() {\n                return Some(Nameservers {", "new": "            if true {\n                return Some(Nameservers {"},
